@@ -16,7 +16,7 @@ METANAMES = [[], ['custom'], ['g_x']]
 METAGROUPS = [[], ['grp'], ['grp:sub']]
 KINDS = ['plain', 'module', 'double']
 MODULES = [['vnmod'], ['vnpkg', 'vnmod'], ['vna', 'vnpkg', 'vnmod2']]
-BASES = [dict(words=['base', 'task'], name=n, group=g, kind=k, module=m)
+BASES = [dict(words=['base', 'task'], name=n, group=g, kind=k, module=m, via='own')
          for n in ([], ['custom']) for g in ([], ['grp']) for k in KINDS for m in (['vnmod'], ['vnpkg', 'vnfeat'])]
 CHILDREN = [dict(words=w, own=own, name=n, group=g, module=m)
             for w in (['child', 'task'], ['kid'])
@@ -71,7 +71,10 @@ def _make(desc, base_cls=None, own=True):
             meta['name'] = desc['name'][0]
         if desc['group']:
             meta['task_group'] = desc['group'][0]
-        attrs['Meta'] = type('Meta', (), meta)
+        if desc.get('via') == 'basemeta' and meta:
+            attrs['Meta'] = type('Meta', (type('CommonMeta', (), meta),), {})     # class Meta(CommonMeta): pass
+        else:
+            attrs['Meta'] = type('Meta', (), meta)
     root = {'plain': Task, 'module': ModuleTask, 'double': DoubleModuleTask}[desc['kind']]
     clsname = ''.join(w.capitalize() for w in desc['words'])
     cls = type(root)(clsname, (base_cls or root,), attrs)
@@ -95,7 +98,7 @@ def _batch(job):
                     if not isinstance(d_[k], list):
                         d_[k] = list(d_[k])
             label = (f"class {''.join(w.capitalize() for w in d['words'])} in module {'.'.join(d['module'])} "
-                     f"({d['kind']}; Meta name {d['name'] or None}, group {d['group'] or None}"
+                     f"({d['kind']}; Meta name {d['name'] or None}, group {d['group'] or None}{', declared in a base Meta class' if d.get('via') == 'basemeta' else ''}"
                      + (f"; derived from {''.join(w.capitalize() for w in c['base'][0]['words'])} in "
                         f"{'.'.join(c['base'][0]['module'])}, {'own Meta' if c['own'] else 'inherited Meta'}" if c['base'] else '') + ')')
             orders = ('base-first', 'sub-first') if c['base'] else ('only',)
